@@ -130,6 +130,14 @@ def enum_cases(tier):
     yield {'kind': 'catalog'}
     for resource, schema in PAIRS:
         yield {'kind': 'resolve', 'resource': resource, 'schema': schema}
+    # one session resolving a platform under several of its schemas, one after the other
+    by_res = {}
+    for resource, schema in PAIRS:
+        by_res.setdefault(resource, []).append(schema)
+    for resource, schemas in by_res.items():
+        if len(schemas) > 1:
+            yield {'kind': 'resolve_seq', 'resource': resource, 'schemas': list(schemas)}
+            yield {'kind': 'resolve_seq', 'resource': resource, 'schemas': list(reversed(schemas))}
     for resource, schema in PAIRS:
         for case in _grid(resource, schema, tier):
             yield case
@@ -173,6 +181,11 @@ def parts(tier):
 
 
 def normalise(case):
+    if isinstance(case, dict) and case.get('kind') == 'resolve_seq':
+        schemas = [sc for sc in case.get('schemas') or [] if (case.get('resource'), sc) in PAIRS]
+        if not schemas:
+            return None
+        return {'kind': 'resolve_seq', 'resource': case['resource'], 'schemas': schemas}
     if not isinstance(case, dict) or case.get('kind') not in ('catalog', 'resolve', 'size'):
         return None
     if case['kind'] == 'catalog':
@@ -207,6 +220,8 @@ def run_case(case):
             return run_catalog()
         if case['kind'] == 'resolve':
             return run_resolve(case)
+        if case['kind'] == 'resolve_seq':
+            return run_resolve_seq(case)
         return run_size(case)
     finally:
         L.cleanup_tmp()
@@ -371,6 +386,31 @@ def run_resolve(case):
 
 
 # ------------------------------------------------------------------------------
+def run_resolve_seq(case):
+    """resolution under a schema does not depend on what the same session resolved before:
+    differential against a fresh session per (resource, schema)"""
+    res = CaseResult()
+    res.label('kind=resolve_seq')
+    resource = case['resource']
+    sess = L.new_session()
+    for n, schema in enumerate(case['schemas']):
+        try:
+            got  = sess.get_resource_config(resource, schema).as_dict()
+            want = L.new_session().get_resource_config(resource, schema).as_dict()
+        except Exception as e:      # noqa
+            res.fail('config_unresolvable:%s' % resource,
+                     'schema %s (resolution #%d of one session): %r @%s' % (schema, n, e, exc_site(e)))
+            return res
+        diff = sorted(k for k in set(got) | set(want) if got.get(k) != want.get(k))
+        if diff:
+            res.fail('resolution_depends_on_history',
+                     '%s under %s after %s: %s differ (e.g. %s: %r, fresh session %r)'
+                     % (resource, schema, case['schemas'][:n], diff, diff[0],
+                        got.get(diff[0]), want.get(diff[0])))
+    res.nontrivial = len(case['schemas']) > 1
+    return res
+
+
 def _prepare(resource, schema, f, smt, nodes, cores, gpus, backup, bulk_pos=0):
     """pilot description -> pilot dict -> _prepare_pilot; returns dict with
     'pilot', 'agent_file' (parsed agent_0.cfg), 'error', 'stage'"""
